@@ -679,6 +679,7 @@ fn run(v: &Value) -> Result<String, String> {
             let max_attempts = v.get("max_attempts").and_then(|x| x.as_u64()).unwrap_or(2) as usize;
             let calls = v.get("calls").and_then(|x| x.as_u64()).unwrap_or(3) as usize;
             let use_async = v.get("async").and_then(|x| x.as_bool()).unwrap_or(false);
+            let no_params = v.get("no_params").and_then(|x| x.as_bool()).unwrap_or(false);
             let listener = TcpListener::bind("127.0.0.1:0").unwrap();
             let port = listener.local_addr().unwrap().port();
             let accepted = Arc::new(AtomicUsize::new(0));
@@ -701,6 +702,8 @@ fn run(v: &Value) -> Result<String, String> {
                             if mode == "app_error" { mode = "reply_ok".to_string(); }
                             match this.as_str() {
                                 "close_after_accept" => return,
+                                // accepted, request read, then nothing: the caller's per-attempt timeout has to end the attempt
+                                "silent" => { std::thread::sleep(Duration::from_secs(20)); return }
                                 "app_error" => {
                                     let mut m = repe::Message::builder().id(req.header.id).error_code(repe::ErrorCode::ApplicationErrorBase)
                                         .body_utf8("nope").build();
@@ -731,10 +734,27 @@ fn run(v: &Value) -> Result<String, String> {
             for c in 0..calls {
                 let before = accepted.load(Ordering::SeqCst);
                 let reqs_before = reqs.load(Ordering::SeqCst);
+                // "no_params": the parameterless entry points (call_json(.., None) goes through call_message_with_timeout)
+                let one = serde_json::json!(1);
+                let params = if no_params { None } else { Some(&one) };
+                let t0 = std::time::Instant::now();
                 let r = match &fleet {
-                    F::S(f) => f.call_json("n", "/ping", Some(&serde_json::json!(1))).map_err(|e| e.to_string())?.into_result(),
-                    F::A(f) => rt.block_on(f.call_json("n", "/ping", Some(&serde_json::json!(1)))).map_err(|e| e.to_string())?.into_result(),
+                    F::S(f) => {
+                        // a call must return within attempts x (node timeout + delay); bound the wait so that a hang is reported, not waited out
+                        let (f2, p2) = (f.clone(), params.cloned());
+                        let (dtx, drx) = std::sync::mpsc::channel();
+                        std::thread::spawn(move || { let _ = dtx.send(f2.call_json("n", "/ping", p2.as_ref())); });
+                        match drx.recv_timeout(Duration::from_secs(15)) {
+                            Ok(x) => x.map_err(|e| e.to_string())?.into_result(),
+                            Err(_) => return Err(format!("call {c} (params: {}) did not return within 15 s although the node timeout is 800 ms and max_attempts is {max_attempts}: the per-attempt timeout was not applied", if no_params { "none" } else { "some" })),
+                        }
+                    }
+                    F::A(f) => match rt.block_on(async { tokio::time::timeout(Duration::from_secs(15), f.call_json("n", "/ping", params)).await }) {
+                        Ok(x) => x.map_err(|e| e.to_string())?.into_result(),
+                        Err(_) => return Err(format!("async call {c} (params: {}) did not return within 15 s although the node timeout is 800 ms and max_attempts is {max_attempts}: the per-attempt timeout was not applied", if no_params { "none" } else { "some" })),
+                    },
                 };
+                let _ = t0;
                 std::thread::sleep(Duration::from_millis(150)); // let an idle close be noticed
                 let opened = accepted.load(Ordering::SeqCst) - before;
                 if opened > max_attempts {
